@@ -513,6 +513,10 @@ static void xml_reporter_finish_suite(TestReporter *reporter, const char *filena
 
     deleteEmpty(ctx->suite);
     memo->printer(ctx->doc);
+    if (memo->printer == default_printer) {
+        /* libxml2 only flushes a FILE it was given, closing it is ours */
+        fclose(ctx->outFile);
+    }
     xmlFreeDoc(ctx->doc);
     if (context_stack_p > 1) {
         context_stack[context_stack_p-2].suite_duration += ctx->suite_duration;
